@@ -21,6 +21,8 @@ PROTO = "sd.ServiceDiscoveryProtocol"
 
 
 def check(run, prog, tier):
+    from . import model as _model
+    _model.audit(run, prog, 'C13')
     # "not yet found" must be answered from the live store, never from a copy that a change of the store does not reset
     cache_coherence(run, prog, "N5", ['sd.ServiceDiscover', 'sd.TimedStore'])
     _task_typestate(run, prog)
